@@ -1018,6 +1018,13 @@ class PseudoNetCDFFile(PseudoNetCDFSelfReg, object):
                 isinstance(val, (PseudoNetCDFVariable,)) and
                 val.dimensions != ()
             ):
+                # an expression such as "N = A" or "N = A[:]" evaluates to
+                # (a view of) an input variable; the result must own its data
+                if any([
+                    isinstance(v, np.ndarray) and np.may_share_memory(val, v)
+                    for v in self.variables.values()
+                ]):
+                    val = val.copy()
                 outf.variables[key] = val
             else:
                 outf.createVariable(key, val.dtype.char,
